@@ -33,6 +33,9 @@ type Result struct {
 	Log        []string        `json:"log,omitempty"`
 	Scenario   json.RawMessage `json:"scenario,omitempty"`
 	Races      []string        `json:"races,omitempty"`
+	Picks      []uint16        `json:"picks,omitempty"`   // the schedule that was taken, in kernel.Schedule form (verbose single runs only)
+	Kernels    int             `json:"kernels,omitempty"` // schedulers the run created
+	Diverged   bool            `json:"diverged,omitempty"`
 }
 
 func (r *Result) Fail(oracle, sig, format string, a ...any) {
